@@ -38,6 +38,19 @@ theorem crc_table_tie :
     Gen.crcXorIn = 0xFFFFFFFF ∧ Gen.crcXorOut = 0xFFFFFFFF ∧ Gen.crcCalcInit = crc32 [] := by
   decide +kernel
 
+/-- **The fall-back implementation of `private/crc32.h` (table-driven loop, used when cppcms is
+built without zlib) computes exactly the model's CRC-32**, for every input, chained calls included. -/
+theorem crc_fallback_eq (d : Bytes) : tableCrc 0 d = crc32 d := by
+  unfold tableCrc crc32 crcRaw
+  have hf : ∀ (l : Bytes) (c : Nat), l.foldl tableStep c = l.foldl crcUpdate c := by
+    intro l
+    induction l with
+    | nil => intro c; rfl
+    | cons x xs ih => intro c; simp only [List.foldl_cons, tableStep_eq, ih]
+  rw [hf]
+  simp [Gen.crcXorIn, Gen.crcXorOut]
+
+
 /-! ## load -/
 
 /-- `read_from_file` never returns a value of the wrong length or with a foreign deadline:
